@@ -46,7 +46,8 @@ def same(d, model):
 
 def start_state(real, rng):
     Deb822 = real.Deb822
-    kind = rng.choice(["empty", "dict", "pairs", "parsed", "parsed-fields"])
+    kind = rng.choice(["empty", "dict", "pairs", "parsed", "parsed-fields", "backed by another paragraph (_parsed=)",
+                       "backed by another paragraph, fields= filter"])
     pairs = []
     for k in rng.sample(KEYS, rng.randint(0, 4)):
         if find(pairs, k) < 0:
@@ -68,6 +69,13 @@ def start_state(real, rng):
             pairs[0] = (k0, v)
     if kind == "parsed":
         return kind, Deb822(text), list(pairs)
+    if kind.startswith("backed by another paragraph"):
+        # the constructor's `_parsed=` / `fields=` keywords: a paragraph that reads its values from another one
+        if kind.endswith("filter") and pairs:
+            keep = [k for k, _v in pairs if rng.random() < 0.6] or [pairs[0][0]]
+            return kind, Deb822(_parsed=Deb822(text), fields=list(keep)), \
+                [(k, v) for k, v in pairs if k in keep]
+        return kind, Deb822(_parsed=Deb822(text)), list(pairs)
     return kind, Deb822(text.splitlines()), list(pairs)
 
 
